@@ -52,7 +52,7 @@ CHECKS = {
         technique=SHELL_TECH, design_ref="DESIGN.md §4 C03"),
     "C04": dict(
         text="Theorems message_documented, report_truthful (each message against the returned state), success_iff, nit_bound, nfev_bound, "
-             "criteria_called_once, thresholds; projgr_shift (Props/C04Shift, ordered field: the projected-gradient norm tested against pgtol does not depend on the origin of the variables) — for all user callables, oracles and configurations incl. restarts with maxiter below the "
+             "criteria_called_once, thresholds; projgr_shift (Props/C04Shift, ordered field: the projected-gradient norm tested against pgtol does not depend on the origin of the variables), projgr_smul (it is homogeneous of degree one in a common positive unit of variables, box and gradient) — for all user callables, oracles and configurations incl. restarts with maxiter below the "
              "checkpoint's nit; tied by bit-exact trace replay over the configuration lattice and restart chains; messages of real runs are "
              "cross-checked against the returned state.",
         note=SHELL_NOTE, technique=SHELL_TECH, design_ref="DESIGN.md §4 C04"),
